@@ -2,7 +2,8 @@
    `no_code` form used by the Props files. *)
 From Coq Require Import List ZArith Bool.
 From Ivv Require Import Core.Kernel Core.CoreTypes Core.CoreFd Core.CoreModel Core.Monitors Core.CoreSpec
-  Core.CoreRel Core.CoreCodes Core.CorePhase2Acct.
+  Core.CoreRel Core.CoreCodes Core.CorePhase2AcctMon Core.CorePhase2AcctEnd Core.CorePhase2AcctK Core.CorePhase2AcctCrash
+  Core.CorePhase2AcctOwnTop.
 Import ListNotations.
 Local Open Scope Z_scope.
 
@@ -34,4 +35,24 @@ Proof.
   apply no_code_cons; [exact (core_code_1804 sc Hwf)|].
   apply no_code_cons; [exact (core_code_706 sc Hwf)|].
   apply no_code_nil.
+Qed.
+
+(* ---------- C18 in full: 1801, 1802, 1804 are the only codes of the 18xx range; none occurs; nor does 706 ---------- *)
+Lemma ev_codes_18 : forall e c, In c (ev_codes e) -> in_range 1800 1900 c = true -> c = 1801 \/ c = 1802 \/ c = 1804.
+Proof.
+  intros e c H R. destruct e; try (destruct n); cbn [ev_codes In] in H;
+    repeat (destruct H as [<-|H]; [try (vm_compute in R; discriminate R); tauto|]); contradiction.
+Qed.
+
+Theorem core_mon_C18 : forall sc, wf_scenario sc ->
+  mon_C18 (run_scenario sc) = true /\ no_code [706] (mon_fails (run_scenario sc)).
+Proof.
+  intros sc WF. split.
+  - unfold mon_C18, none_in. apply negb_true_iff.
+    destruct (existsb (in_range 1800 1900) (mon_fails (run_scenario sc))) eqn:E; [|reflexivity].
+    apply existsb_exists in E. destruct E as (c & H & R). exfalso.
+    destruct (fails_origin _ c H) as (e & _ & C).
+    destruct (ev_codes_18 e c C R) as [ -> | [ -> | -> ] ];
+      [exact (core_code_1801 sc WF H)|exact (core_code_1802 sc WF H)|exact (core_code_1804 sc WF H)].
+  - intros c H [<-|[]]. exact (core_code_706 sc WF H).
 Qed.
